@@ -125,6 +125,49 @@ ObsOf(ix, c, db) ==
          inside |-> Status(ix, db, f, 0, Len(ix), FALSE, "none"),  \* get_features() on the whole view
          cls  |-> FeatClass(ix, f.spans)]]
 
+(* --------------------------------------------------------- feature algebra *)
+(* Derived features and derived sequences, all on the same position sets.       *)
+(* For a feature f shown by the view at positions Pos (non-empty):               *)
+(*   f.as_one_span()          covers min(Pos)..max(Pos), gaps between the spans  *)
+(*                            included ("preserves any gaps");                   *)
+(*   f.shadow()               covers the view positions NOT in Pos ("disjoint    *)
+(*                            of self coordinates");                             *)
+(*   f.without_lost_spans()   covers Pos again and is complete;                  *)
+(*   f.get_slice(complete=True) is the slice when the whole of Denotes(f) is     *)
+(*                            retained and must fail otherwise ("if feature not  *)
+(*                            complete on parent, causes an exception");         *)
+(*   a.union([b])             covers Pos(a) \cup Pos(b) ("overlapping spans are *)
+(*                            merged"), whichever of the two it is called on;    *)
+(* each derived feature keeps the strand of f, so its slice reads the covered    *)
+(* residues on f's strand (for the union of a plus- and a minus-strand feature   *)
+(* the docstrings leave the strand open: only its positions are stated).        *)
+(*   seq.with_masked_annotations(biotypes, shadow) shows the mask character at   *)
+(*   the positions of the retained features of those biotypes (shadow=False) or  *)
+(*   at all other positions (shadow=True), the view's own residues elsewhere.    *)
+PosSet(ix, sp) == RangeOf(PosOn(ix, sp))
+AscSeq(S, n) == SelectSeq(Ident(n), LAMBDA k : k \in S)
+(* root positions shown at view positions S, in the reading order of feature f *)
+ReadAt(ix, f, S) ==
+    LET asc == SelectSeq(Ident(P), LAMBDA r : \E k \in S : ix[k + 1] = r)
+    IN IF f.strand = "+" THEN asc ELSE Reverse(asc)
+OneSpan(ix, sp) == IF PosSet(ix, sp) = {} THEN {} ELSE SetMin(PosSet(ix, sp))..SetMax(PosSet(ix, sp))
+ShadowSet(ix, sp) == (0..(Len(ix) - 1)) \ PosSet(ix, sp)
+UnionSet(ix) == PosSet(ix, Feats[1].spans) \cup PosSet(ix, Feats[2].spans)
+MaskSet(ix, bios, shadow) ==
+    LET hit == UNION {PosSet(ix, Feats[k].spans) : k \in {j \in 1..2 : Feats[j].bio \in bios}}
+    IN IF shadow THEN (0..(Len(ix) - 1)) \ hit ELSE hit
+Algebra(ix, db) ==
+    IF ~db THEN <<>>
+    ELSE <<[feat |-> [k \in 1..2 |->
+                LET f == Feats[k] IN
+                [name |-> f.name,
+                 one |-> AscSeq(OneSpan(ix, f.spans), Len(ix)), oneread |-> ReadAt(ix, f, OneSpan(ix, f.spans)),
+                 shadow |-> AscSeq(ShadowSet(ix, f.spans), Len(ix)), shadowread |-> ReadAt(ix, f, ShadowSet(ix, f.spans)),
+                 complete |-> Len(PosOn(ix, f.spans)) = Len(Denotes(f.spans))]],
+             union |-> AscSeq(UnionSet(ix), Len(ix)),
+             masks |-> {<<bios, sh, AscSeq(MaskSet(ix, bios, sh), Len(ix))>> :
+                            bios \in {{"gene"}, {"cds"}, {"gene", "cds"}}, sh \in BOOLEAN}]>>
+
 Windows(n) == {w \in (0..n) \X (0..n) : w[1] < w[2]}
 QueryTable ==       \* <<ws, we, partial, filter, status of a, status of b>>
     {<<w[1], w[2], pt, fl, Status(idx, hasdb, Feats[1], w[1], w[2], pt, fl),
@@ -217,7 +260,8 @@ Degap == DegapT /\ Log("Degap", <<>>)
 
 (* once per explored state: what the view shows and what every query returns *)
 Look == /\ UNCHANGED vars
-        /\ Emit([act |-> "Look", from |-> St, obs |-> ObsOf(idx, comp, hasdb), queries |-> QueryTable])
+        /\ Emit([act |-> "Look", from |-> St, obs |-> ObsOf(idx, comp, hasdb), queries |-> QueryTable,
+                 algebra |-> Algebra(idx, hasdb)])
 
 (* A feature added to a *view* with view-relative spans r denotes the root      *)
 (* positions the view shows there (for a forward slice root[lo:hi]: lo + r).    *)
@@ -291,6 +335,25 @@ InsideIsComplete ==
     \A k \in 1..2 :
         Status(idx, hasdb, Feats[k], 0, Len(idx), FALSE, "none") = "in"
             => Len(PosOn(idx, Feats[k].spans)) = Len(Denotes(Feats[k].spans))
+
+(* laws of the feature algebra on any view *)
+AlgebraLaws ==
+    hasdb =>
+        LET all == 0..(Len(idx) - 1) IN
+        /\ \A k \in 1..2 :
+              LET sp == Feats[k].spans IN
+              /\ PosSet(idx, sp) \cup ShadowSet(idx, sp) = all                 \* a feature and its shadow partition the view
+              /\ PosSet(idx, sp) \cap ShadowSet(idx, sp) = {}
+              /\ PosSet(idx, sp) \subseteq OneSpan(idx, sp)                    \* the one-span version covers it, tightly
+              /\ (PosSet(idx, sp) # {} => /\ SetMin(OneSpan(idx, sp)) = SetMin(PosSet(idx, sp))
+                                          /\ SetMax(OneSpan(idx, sp)) = SetMax(PosSet(idx, sp)))
+              /\ Len(ReadAt(idx, Feats[k], PosSet(idx, sp))) = Len(ReadOn(idx, Feats[k]))
+              /\ ReadAt(idx, Feats[k], PosSet(idx, sp)) = ReadOn(idx, Feats[k])  \* reading "at the positions" is reading the retained residues
+        /\ all \ UnionSet(idx) = ShadowSet(idx, Feats[1].spans) \cap ShadowSet(idx, Feats[2].spans)   \* De Morgan
+        /\ MaskSet(idx, {"gene", "cds"}, FALSE) = UnionSet(idx)
+        /\ \A bios \in {{"gene"}, {"cds"}, {"gene", "cds"}} :
+              /\ MaskSet(idx, bios, TRUE) \cup MaskSet(idx, bios, FALSE) = all
+              /\ MaskSet(idx, bios, TRUE) \cap MaskSet(idx, bios, FALSE) = {}
 
 (* the slice of a feature does not depend on the orientation of the view;      *)
 (* slicing only ever loses residues; copying changes nothing                   *)
